@@ -15,11 +15,14 @@ enum { SOCKET_BAD_RECV = 1, SOCKET_BAD_DATA = 2 };
 const char* g_base; int g_total, g_sofar, g_calls, g_ok;
 '''
 WIN = ifdef_rule('_WIN32', False)
+# the OS calls, whatever their buffer / count arguments are (a changed argument is a changed value for the stub's assertion, not an extraction miss)
+OS_READ_RULE = (r'::read\(_handle, (.+?), ([^,;]+)\);', r'OS_READ((char*)(\1), \2);', 1)
+OS_SEND_RULE = (r'::send\(_handle, (.+?), ([^,;]+), MSG_NOSIGNAL\);', r'OS_SEND((const char*)(\1), \2);', 1)
 
 sock_read = Unit(
     'Socket_read', 'C10',
     cuts=[Cut('rd', SC, r'^int Socket_::read\(void\* data, int size\)\s*$', members=('_handle', '_blocking', '_error'),
-              rules=[WIN, (r'::read\(_handle, \(char\*\)data, size\)', 'OS_READ((char*)data, size)', 1), do_while_rule],
+              rules=[WIN, OS_READ_RULE, do_while_rule],
               loops=[(r'while \(vf_first', 0, '''
   __CPROVER_assigns(vf_first, data, s, size, g_sofar, g_calls, self->_error)
   __CPROVER_loop_invariant((vf_first ? s == 0 : (0 < s)) && s <= g_total && (vf_first == 0 || vf_first == 1) && s == g_sofar && size == g_total - s && __CPROVER_same_object(data, g_base) && DOFF(data, g_base) == s && g_ok && self->_blocking && 0 <= g_calls && g_calls <= s + 1)
@@ -49,7 +52,7 @@ void vf_harness(void) { Socket_* s; void* d; int n; Socket_read(s, d, n); VF_CAN
 sock_write = Unit(
     'Socket_write', 'C10',
     cuts=[Cut('wr', SC, r'^int Socket_::write\(const void\* data, int size\)\s*$', members=('_handle', '_blocking', '_error'),
-              rules=[WIN, (r'::send\(_handle, data, size, MSG_NOSIGNAL\)', 'OS_SEND((const char*)data, size)', 1), do_while_rule],
+              rules=[WIN, OS_SEND_RULE, do_while_rule],
               loops=[(r'while \(vf_first', 0, '''
   __CPROVER_assigns(vf_first, data, s, size, g_sofar, g_calls, self->_error)
   __CPROVER_loop_invariant((vf_first ? s == 0 : (0 < s)) && s <= g_total && (vf_first == 0 || vf_first == 1) && s == g_sofar && size == g_total - s && __CPROVER_same_object(data, g_base) && DOFF(data, g_base) == s && g_ok && self->_blocking && 0 <= g_calls && g_calls <= s + 1)
@@ -74,7 +77,23 @@ void vf_harness(void) { Socket_* s; const void* d; int n; Socket_write(s, d, n);
     desc='Socket_::write: in blocking mode the bytes of the caller\'s buffer are handed to the OS consecutively, each exactly once, never beyond its end; terminates',
     functions=['Socket_::write'], trusted=['POSIX send() on a blocking stream socket with n > 0: returns -1 or 1..n (never 0)'],
 )
-UNITS = [sock_read, sock_write]
+import copy
+def _small(u, name):
+    """the same function, contract and OS stub without the loop contract: the do/while is unwound completely for buffers of at most 4 bytes (each turn moves >= 1 byte).
+    Independent of the names and shape of the loop's locals, so a restructured loop is still decided (bounded)."""
+    v = copy.copy(u)
+    v.name = name
+    c = u.cuts[0]
+    v.cuts = [Cut(c.name, c.file, c.locator, members=('_handle', '_blocking', '_error'), rules=[r for r in c.rules if r is not do_while_rule])]
+    v.variants = {'': ['-DNMAX=4']}
+    v.unwind = 6
+    v.kind, v.bound = 'bounded', 'buffers of 1..4 bytes (loop unwound completely: at most 4 turns), any OS return values'
+    v.loop_contracts = False
+    v.desc = u.desc + ' [bounded twin without loop contract]'
+    return v
+sock_read_small = _small(sock_read, 'Socket_read_small')
+sock_write_small = _small(sock_write, 'Socket_write_small')
+UNITS = [sock_read, sock_write, sock_read_small, sock_write_small]
 
 http_write = Unit(
     'HttpMessage_write_blocks', 'C10',
